@@ -318,6 +318,9 @@ def datum(x, g, rec=None):
         return AttrRecord(d)
     if rec == "scalar":
         return d["x"]
+    if rec == "npdict":
+        # the numbers of a record as NumPy scalars (what iterating over an array or a DataFrame column yields)
+        return {k: (np.float64(v) if isinstance(v, float) else v) for k, v in d.items()}
     return d
 
 
